@@ -2,6 +2,7 @@
 # Runs every claimed check (quick tier by default) on the current /repo tree and rewrites the evidence files.
 cd "$(dirname "$0")/.."
 tier=${1:-quick}
+mkdir -p work
 for id in $(python3 -c "import json;print(' '.join(c['property_id'] for c in json.load(open('MANIFEST.json'))['checks']))"); do
   ./check $id --tier $tier > work/run-$id.log 2>&1; echo "$id exit $?  $(tail -1 work/run-$id.log)"
 done
